@@ -127,6 +127,64 @@ func ruleG1(r *Run, le *LockEngine) {
 			fails[rq.Origin] = append(fails[rq.Origin], fail{rq, fnName(fn), why})
 		}
 	}
+	// a field all of whose accesses moved, together, under another mutex of the same struct is still guarded: for a
+	// field with failures, the table is tried with each other sync.Mutex/RWMutex field of the owner in place of the
+	// listed lock; when no access fails under one of them, that one is the field's guard now
+	reguarded := map[string]string{}
+	{
+		failing := map[string]bool{}
+		for origin := range fails {
+			parts := strings.Split(origin, "|")
+			if len(parts) == 3 {
+				failing[parts[1]] = true
+			}
+		}
+		for fk := range failing {
+			spec := g.Table[fk]
+			if spec == nil {
+				continue
+			}
+			i := strings.LastIndexByte(spec.Owner, '.')
+			n := p.Named(spec.Owner[:i], spec.Owner[i+1:])
+			if n == nil {
+				continue
+			}
+			st, isStruct := n.Underlying().(*types.Struct)
+			if !isStruct {
+				continue
+			}
+			for j := 0; j < st.NumFields(); j++ {
+				f := st.Field(j)
+				ts := strings.TrimPrefix(f.Type().String(), "*")
+				if (ts != "sync.Mutex" && ts != "sync.RWMutex") || (len(spec.Lock) > 0 && f.Name() == spec.Lock[len(spec.Lock)-1]) {
+					continue
+				}
+				alt := make([]GuardSpec, len(guardTable))
+				copy(alt, guardTable)
+				for k := range alt {
+					if alt[k].Owner == spec.Owner && alt[k].Field == spec.Field {
+						lk := append([]string{}, spec.Lock[:len(spec.Lock)-1]...)
+						alt[k].Lock = append(lk, f.Name())
+					}
+				}
+				g2 := newGuardEngine(p, le, alt, guardExempt)
+				bad := false
+				for _, fn := range p.Funcs {
+					if _, isRoot := roots.roots[fn]; !isRoot {
+						continue
+					}
+					for _, rq := range g2.Requires(fn) {
+						if parts := strings.Split(rq.Origin, "|"); len(parts) == 3 && parts[1] == fk {
+							bad = true
+						}
+					}
+				}
+				if !bad {
+					reguarded[fk] = f.Name()
+				}
+			}
+		}
+	}
 	// obligations: (function, field, mode) triples
 	type trip struct{ fn, fk, mode string }
 	seen := map[trip]bool{}
@@ -144,6 +202,10 @@ func ruleG1(r *Run, le *LockEngine) {
 			origin := t.fn + "|" + t.fk + "|" + t.mode
 			key := t.fn + " " + t.mode + " " + t.fk
 			fl := fails[origin]
+			if alt, ok := reguarded[fk]; ok && len(fl) > 0 {
+				r.Check(key, true, p.pos(a.Ins.Pos()), t.fn, "every access of the field in the module is made under "+alt+" of the same struct (the table lists another lock): guarded consistently")
+				continue
+			}
 			if len(fl) == 0 {
 				r.Check(key, true, p.pos(a.Ins.Pos()), t.fn, "lock held at every access (locally or by every static caller), or exempt")
 				continue
@@ -228,6 +290,20 @@ func ruleG2(r *Run) {
 			continue
 		}
 		cs := p.staticCallSites(fn)
+		// (one unexported forwarding helper may sit between the run group's member and the exempt function: then the
+		// helper's call sites are the ones judged)
+		var lifted []ssa.Instruction
+		for _, c := range cs {
+			host := c.Parent()
+			if host.Parent() == nil && host != runFn && (host.Object() == nil || !host.Object().Exported()) && recvTypeName(host) == "Conn" {
+				if up := p.staticCallSites(host); len(up) > 0 {
+					lifted = append(lifted, up...)
+					continue
+				}
+			}
+			lifted = append(lifted, c)
+		}
+		cs = lifted
 		ok := len(cs) > 0
 		for _, c := range cs {
 			host := c.Parent()
